@@ -13,7 +13,9 @@
 //   kind M : several ObjectPools, reserve_and_clear(p1) each; p2 = one digit per pool, 1 strict / 2 auto-create (e.g. 12)
 //            ops: O<j> handle := pool j .pop(), T<j> try_pop, N handle{new object} with a default-constructed Deleter,
 //                 H<j> pool j .push(std::move(first handle))   (unique_ptr<T, Deleter> overload),
-//                 U<j> pool j .push(unique_ptr<T>{first handle.release()}), D first handle dies, V move the first handle
+//                 U<j> pool j .push(unique_ptr<T>{first handle.release()}), D first handle dies, V move the first handle,
+//                 X<j> pool j is move-constructed into a fresh pool that replaces it, Y<j> move-assigned into a fresh
+//                 configured pool (single-threaded programs only; outstanding handles stay bound to the old object)
 //   program (C,H,P,S,M) = threads separated by '|', ops separated by ','
 // stdout: <case-id> ok steps=<n> | <outcome, same text as the model driver> | <monitor>=<0/1> ...
 #include "shim/prelude.h"
@@ -199,7 +201,8 @@ static void run_pool(const char* id, bool strict, size_t pcap, unsigned long lon
   std::vector<void*> mem;
   Obj::destroyed = &destroyed; Obj::alive = &alive;
   int created = 0, pool_created = 0;
-  bool owner = true, recycle = true, foreign = true, seqbound = true;
+  bool owner = true, recycle = true, foreign = true, seqbound = true, moved = true;
+  std::vector<ObjectPool<Obj>*> graveyard;
   auto make = [&]() {
     void* m = ::operator new(sizeof(Obj));
     mem.push_back(m);
@@ -264,6 +267,15 @@ static void run_pool(const char* id, bool strict, size_t pcap, unsigned long lon
             out[t] += (out[t].empty() ? "" : ",") + (strict ? std::string("F") : std::string("U") + (dropped ? "1" : "0"));
             if (nt == 1 && !strict && pool->free_object_number() > pcap) seqbound = false;
           } break;
+          case 'X': {                                     // single-threaded programs: move the pool into a fresh one
+            if (nt != 1) break;
+            Pool* old = pool;
+            size_t before = old->free_object_number();
+            pool = new Pool(std::move(*old));
+            graveyard.push_back(old);
+            if (pool->free_object_number() != before) moved = false;
+            out[t] += (out[t].empty() ? "" : ",") + std::string("X");
+          } break;
           case 'M': {                                                        // move-assign a fresh pop over the first held
             if (held[t].empty() || !held[t].front().wrapped) break;
             int old = held[t].front().raw->id;
@@ -309,10 +321,11 @@ static void run_pool(const char* id, bool strict, size_t pcap, unsigned long lon
   std::string o;
   for (size_t t = 0; t < nt; ++t) o += (t ? "|" : "") + out[t];
   printf("%s ok steps=%llu | %s cached=%s returned=%s fresh=%d | owner=%d recycle=%d leak=%d overflow=%d nocreate=%d "
-         "seqbound=%d\n", id, (unsigned long long)r.steps, o.c_str(), lst(cached).c_str(), lst(destroyed_before).c_str(),
-         created, owner, recycle, leak, overflow, foreign, seqbound);
+         "seqbound=%d moved=%d\n", id, (unsigned long long)r.steps, o.c_str(), lst(cached).c_str(), lst(destroyed_before).c_str(),
+         created, owner, recycle, leak, overflow, foreign, seqbound, moved);
   for (auto& hs : held) for (auto& h : hs) { h.wrapped.release(); delete h.raw; }
   delete pool;
+  for (auto* g : graveyard) delete g;
   Obj::hook = nullptr;
   for (void* m : mem) ::operator delete(m);
 }
@@ -330,9 +343,10 @@ static void run_multi(const char* id, size_t pcap, unsigned long modes, unsigned
   std::vector<void*> mem;
   Obj::destroyed = &destroyed; Obj::alive = &alive; Obj::twice = false;
   int created = 0;
-  bool owner = true, route = true, recycle = true, nocreate = true;
+  bool owner = true, route = true, recycle = true, nocreate = true, moved = true, nofresh = true;
   static thread_local int cur_t = -1;
   std::vector<int> in_obj(nt, -1), in_pool(nt, -1), run_ok(nt, 0), run_bad(nt, 0), dropped(nt, 0);
+  std::vector<ObjectPool<Obj>*> graveyard;       // moved-from pools, kept alive for the handles still bound to them
   std::function<void(int)> hook = [&](int oid) { if (cur_t >= 0 && in_obj[(size_t)cur_t] == oid) dropped[(size_t)cur_t] = 1; };
   Obj::hook = &hook;
   auto make = [&](int home) {
@@ -346,7 +360,11 @@ static void run_multi(const char* id, size_t pcap, unsigned long modes, unsigned
   for (size_t j = 0; j < K; ++j) {
     auto* p = new Pool;
     p->reserve_and_clear(pcap);
-    if (ms[j] == '2') p->set_creator([&, j] { return std::unique_ptr<Obj>(make((int)j)); });
+    if (ms[j] == '2') p->set_creator([&, j] {
+      if (nt == 1)                                 // single thread: the creator must not run while pool j caches objects
+        for (size_t o = 0; o < alive.size(); ++o) if (alive[o] && holder[o] == -1 && target[o] == (int)j && !expected_leak[o]) nofresh = false;
+      return std::unique_ptr<Obj>(make((int)j));
+    });
     p->set_recycler([&, j](Obj& o) {
       rec[j].push_back(o.id);
       if (cur_t >= 0 && in_obj[(size_t)cur_t] == o.id) { if (in_pool[(size_t)cur_t] == (int)j) run_ok[(size_t)cur_t]++; else run_bad[(size_t)cur_t]++; }
@@ -402,6 +420,17 @@ static void run_multi(const char* id, size_t pcap, unsigned long modes, unsigned
             if (holder[(size_t)oid] == -2 - (int)t) holder[(size_t)oid] = -1;
             tok(t, op.k == 'D' ? std::string("D") : std::string("P") + (dropped[t] ? "1" : "0"));
           } break;
+          case 'X': case 'Y': {                              // move the whole pool (construction / assignment)
+            Pool* old = pools[j];
+            size_t before = old->free_object_number();
+            Pool* np;
+            if (op.k == 'X') np = new Pool(std::move(*old));
+            else { np = new Pool; np->reserve_and_clear(pcap); *np = std::move(*old); }
+            pools[j] = np;
+            graveyard.push_back(old);
+            if (np->free_object_number() != before || old->free_object_number() != 0) moved = false;
+            tok(t, std::string(1, op.k));
+          } break;
           case 'V': {
             if (held[t].empty()) { tok(t, "_"); break; }
             Held h = std::move(held[t].front());
@@ -437,6 +466,8 @@ static void run_multi(const char* id, size_t pcap, unsigned long modes, unsigned
     ndrained += cached.size();
     cs += (j ? "/" : "") + lst(cached); rs += (j ? "/" : "") + lst(rec[j]);
   }
+  for (auto* g : graveyard)                                     // nothing may be left behind in a moved-from pool
+    for (;;) { Ptr p = g->try_pop(); if (!p) break; route = false; p.release(); }
   std::vector<int> hl, leaked;
   size_t nheld = 0, nexp = 0;
   for (auto& hs : held) for (auto& h : hs) { hl.push_back(h.raw->id); nheld++; }
@@ -448,11 +479,12 @@ static void run_multi(const char* id, size_t pcap, unsigned long modes, unsigned
   std::string o;
   for (size_t t = 0; t < nt; ++t) o += (t ? "|" : "") + out[t];
   printf("%s ok steps=%llu | %s cached=%s destroyed=%s rec=%s fresh=%d leaked=%s held=%s | owner=%d route=%d recycle=%d "
-         "leak=%d count=%d twice=%d nocreate=%d\n", id, (unsigned long long)r.steps, o.c_str(), cs.c_str(),
+         "leak=%d count=%d twice=%d nocreate=%d moved=%d nofresh=%d\n", id, (unsigned long long)r.steps, o.c_str(), cs.c_str(),
          lst(destroyed).c_str(), rs.c_str(), created, lst(leaked).c_str(), lst(hl).c_str(), owner, route, recycle, leak,
-         count_ok, !Obj::twice, nocreate);
+         count_ok, !Obj::twice, nocreate, moved, nofresh);
   for (auto& hs : held) for (auto& h : hs) h.wrapped.release();
   for (auto* p : pools) delete p;
+  for (auto* g : graveyard) delete g;
   Obj::hook = nullptr;
   for (void* m : mem) ::operator delete(m);
 }
